@@ -35,7 +35,7 @@ func init() {
 		}
 	}
 	from := func(fk ForkID) func(mu *mutator) { return func(mu *mutator) { mu.minFork = fk } }
-	set([]string{"sync_bit_flipped", "sync_signature", "sync_sig_new_fork_version", "pslash_pre_fork_headers_new_version",
+	set([]string{"sync_bit_flipped", "sync_signature", "sync_sig_new_fork_version", "sync_sig_old_fork_version", "pslash_pre_fork_headers_new_version",
 		"exit_pre_fork_epoch_new_version", "att_pre_fork_target_new_version"}, from(Altair))
 	set([]string{"payload_parent_hash", "payload_prev_randao", "payload_timestamp", "payload_empty_after_merge", "payload_engine_verdict",
 		"payload_unexpected_premerge_garbage"}, from(Bellatrix))
@@ -219,7 +219,9 @@ func (c *Chain) coverSteps() map[ForkID][]int {
 func CoverPhase(results []ChainResult, seed uint64, tier string) {
 	var chains []*coverChain
 	for i := range results {
-		if c := results[i].c; c != nil && len(c.Honest) > 0 && results[i].Err == nil {
+		// (a chain whose honest production derailed — zrnt rejected the producer's blocks — takes part all the same: the rejected
+		// blocks and their pre-states are honest steps like the others, every record is judged on its own)
+		if c := results[i].c; c != nil && len(c.Honest) > 0 {
 			chains = append(chains, &coverChain{c: c, bases: map[int]*ProposeCtx{}, pres: map[int]common.BeaconState{}})
 		}
 	}
